@@ -229,36 +229,25 @@ class Repo:
                         self.renamed = getattr(self, 'renamed', {})
                         self.renamed[rel] = dict(rn0)
                 if os.environ.get('SA_NO_CANON') != '1':
-                    from .canon import inline_fresh_helpers
-                    ih = inline_fresh_helpers(rel, self.modules[rel])
-                    if ih:
-                        self.modules[rel].reindex()
-                        self.helpers_inlined = getattr(self, 'helpers_inlined', {})
-                        self.helpers_inlined[rel] = ih
-                if os.environ.get('SA_NO_CANON') != '1':
-                    from .canon import expand_iter_sentinel_loops
-                    if expand_iter_sentinel_loops(rel, self.modules[rel]):
-                        self.modules[rel].reindex()
-                if os.environ.get('SA_NO_CANON') != '1':
-                    from .canon import expand_enumerate_counters
-                    if expand_enumerate_counters(rel, self.modules[rel]):
-                        self.modules[rel].reindex()
-                if os.environ.get('SA_NO_CANON') != '1':
-                    from .canon import unroll_constant_loops
-                    if unroll_constant_loops(rel, self.modules[rel]):
-                        self.modules[rel].reindex()
-                if os.environ.get('SA_NO_CANON') != '1':
-                    from .canon import fold_unpacked_loop_targets
-                    fu = fold_unpacked_loop_targets(rel, self.modules[rel])
-                    if fu:
-                        self.modules[rel].reindex()
-                if os.environ.get('SA_NO_CANON') != '1':
-                    from .canon import inline_fresh_temps
-                    it = inline_fresh_temps(rel, self.modules[rel], refnames())
+                    from . import canon as _cn
+                    for _round in range(2):
+                        ih = _cn.inline_fresh_helpers(rel, self.modules[rel])
+                        if ih:
+                            self.modules[rel].reindex()
+                            self.helpers_inlined = getattr(self, 'helpers_inlined', {})
+                            self.helpers_inlined.setdefault(rel, {}).update(ih)
+                        it = _cn.inline_fresh_temps(rel, self.modules[rel], refnames())
+                        if it:
+                            self.modules[rel].reindex()
+                            self.inlined = getattr(self, 'inlined', {})
+                            self.inlined.setdefault(rel, {}).update(it)
+                        for step in (_cn.expand_enumerate_counters, _cn.expand_iter_sentinel_loops, _cn.unroll_constant_loops,
+                                     _cn.fold_unpacked_loop_targets):
+                            if step(rel, self.modules[rel]):
+                                self.modules[rel].reindex()
+                    it = _cn.inline_fresh_temps(rel, self.modules[rel], refnames())
                     if it:
                         self.modules[rel].reindex()
-                        self.inlined = getattr(self, 'inlined', {})
-                        self.inlined[rel] = it
                 if os.environ.get('SA_NO_RENAME') != '1':
                     rn = normalise_local_names(rel, self.modules[rel])
                     if rn:
